@@ -49,9 +49,15 @@ const (
 	c02BRewPend  = 7 // delegRwz_pending_<height>_<addr> (sub = height)
 	c02BPropFund = 8 // propFunds_i_<id>_<addr>          (sub = proposal)
 	c02BDelegAct = 9 // deleg_a_<addr>: a claim on the delegation pool's balance (C03 holdings only)
+	// side records: validator reward claims on the reward pool's balance and their counters.  Not part of the chain total
+	// (the pool's balance is) nor of an account's holdings; monitored: never negative, never raised by a transaction
+	c02BVRewBal  = 10 // rwcum_balance_<validator>   matured, withdrawable reward claim
+	c02BVRewWd   = 11 // rwcum_withdrawn_<validator> total withdrawn so far
+	c02BVRewPend = 12 // rwz_<validator>_<interval>  rewards of an interval, not yet matured (sub = interval)
 )
 
-var c02BucketNames = []string{"balance", "fee", "stake", "unstaking", "withdrawable", "undelegating", "reward_claim", "reward_withdrawing", "proposal_fund", "delegated"}
+var c02BucketNames = []string{"balance", "fee", "stake", "unstaking", "withdrawable", "undelegating", "reward_claim", "reward_withdrawing", "proposal_fund", "delegated",
+	"validator_reward_matured", "validator_reward_withdrawn", "validator_reward_interval"}
 
 const c02FeePoolOwner = "feepool"
 
@@ -64,6 +70,7 @@ type c02Key struct {
 
 type c02View struct {
 	Led        map[c02Key]*big.Int
+	Side       map[c02Key]*big.Int // validator reward claim records (buckets 10..12)
 	Unknown    []string          // keys the decoder does not recognise
 	Bad        []string          // recognised keys whose value does not decode
 	Counter    *big.Int          // delegRwz_total_rewards
@@ -114,7 +121,7 @@ func c02IsAddr(s string) bool {
 func c02IsEOAAddr(s string) bool { return len(s) == 43 && c02IsAddr(s) }
 
 func c02Decode(m map[string]string) *c02View {
-	v := &c02View{Led: map[c02Key]*big.Int{}, Counter: new(big.Int), Vals: map[string]string{}, Byz: map[string]bool{}, Protocol: map[string]bool{c02FeePoolOwner: true}, PrefixHist: map[string]int{}, Fin: map[string]bool{}}
+	v := &c02View{Led: map[c02Key]*big.Int{}, Side: map[c02Key]*big.Int{}, Counter: new(big.Int), Vals: map[string]string{}, Byz: map[string]bool{}, Protocol: map[string]bool{c02FeePoolOwner: true}, PrefixHist: map[string]int{}, Fin: map[string]bool{}}
 	add := func(k c02Key, a *big.Int) {
 		if old, ok := v.Led[k]; ok {
 			v.Led[k] = new(big.Int).Add(old, a)
@@ -226,6 +233,40 @@ func c02Decode(m map[string]string) *c02View {
 				continue
 			}
 			add(c02Key{o, c02BDelegAct, cur, ""}, a)
+		case strings.HasPrefix(k, "rwcum_balance_") || strings.HasPrefix(k, "rwcum_withdrawn_"):
+			b, pre := c02BVRewBal, "rwcum_balance_"
+			if strings.HasPrefix(k, "rwcum_withdrawn_") {
+				b, pre = c02BVRewWd, "rwcum_withdrawn_"
+			}
+			v.PrefixHist[pre]++
+			o := k[len(pre):]
+			a, ok := c02Amt(val)
+			if !c02IsAddr(o) {
+				v.Unknown = append(v.Unknown, k)
+				continue
+			}
+			if !ok {
+				v.Bad = append(v.Bad, k)
+				continue
+			}
+			v.Side[c02Key{o, b, "OLT", ""}] = a
+		case strings.HasPrefix(k, "rwz_"):
+			v.PrefixHist["rwz_"]++
+			p := strings.Split(k[len("rwz_"):], "_")
+			a, ok := c02Amt(val)
+			if len(p) != 2 || !c02IsAddr(p[0]) {
+				v.Unknown = append(v.Unknown, k)
+				continue
+			}
+			if _, err := strconv.ParseInt(p[1], 10, 64); err != nil {
+				v.Unknown = append(v.Unknown, k)
+				continue
+			}
+			if !ok {
+				v.Bad = append(v.Bad, k)
+				continue
+			}
+			v.Side[c02Key{p[0], c02BVRewPend, "OLT", p[1]}] = a
 		case k == "delegRwz_total_rewards":
 			v.PrefixHist["delegRwz_total_rewards"]++
 			a, ok := c02Amt(val)
@@ -391,7 +432,7 @@ func (in *c02Intern) cur(s string) int {
 }
 func (in *c02Intern) sub(k c02Key) int64 {
 	switch k.Bucket {
-	case c02BUnstake, c02BUndeleg, c02BRewPend:
+	case c02BUnstake, c02BUndeleg, c02BRewPend, c02BVRewPend:
 		h, _ := strconv.ParseInt(k.Sub, 10, 64)
 		return h
 	case c02BStake:
